@@ -18,6 +18,7 @@ import (
 	"verif/internal/ev"
 	"verif/internal/keys"
 	"verif/internal/opdrv"
+	"verif/internal/vstore"
 	"verif/internal/vclient"
 )
 
@@ -203,6 +204,7 @@ type flowResult struct {
 	tokens *opdrv.Tokens
 	last   *opdrv.Resp
 	stage  string // where it stopped: "", "no-authorization-endpoint", "authorize", "callback", "exchange", "no-token-endpoint"
+	stored *vstore.AuthReq // the authorization request as the storage was asked to create it
 }
 
 type flowReq struct {
@@ -254,6 +256,9 @@ func (s *sess) codeFlow(name string, f flowReq) flowResult {
 	if id == "" {
 		out.stage = "authorize"
 		return out
+	}
+	if rec, ok := s.w.st.AuthReqRecord(id); ok {
+		out.stored = &rec
 	}
 	s.w.st.CompleteLogin(id, "user-1")
 	s.trace = append(s.trace, step{name + ": login", "login UI completes request " + id + " as user-1", "ok"})
@@ -663,7 +668,8 @@ func (s *sess) probeRequestObject() {
 			return
 		}
 	}
-	jws := s.requestObject(nil)
+	// besides state and nonce the object carries parameters the plain request does not (or states differently)
+	jws := s.requestObject(map[string]any{"response_mode": "fragment", "login_hint": "obj-hint", "prompt": "consent", "max_age": 777, "ui_locales": "de fr"})
 	_ = alg
 	f := flowReq{client: s.w.omni, scope: "openid profile", state: outerState, nonce: outerNonce, extra: url.Values{"request": {jws}}}
 	res := s.codeFlow("request object", f)
@@ -700,6 +706,28 @@ func (s *sess) probeRequestObject() {
 		s.run.Count("reqobj:"+s.rn, adv+":honoured")
 		if advertised {
 			s.run.Observed("reqobj-honoured:" + s.rn)
+			// every parameter of the accepted object must have reached the authorization request
+			if st := res.stored; st != nil {
+				var lost []string
+				chk := func(name, got, want string) {
+					if got != want {
+						lost = append(lost, fmt.Sprintf("%s=%q (object says %q)", name, got, want))
+					}
+				}
+				chk("scope", strings.Join(st.Orig.Scopes, " "), "openid email")
+				chk("response_mode", string(st.Orig.ResponseMode), "fragment")
+				chk("login_hint", st.Orig.LoginHint, "obj-hint")
+				chk("prompt", strings.Join(st.Orig.Prompt, " "), "consent")
+				chk("ui_locales", fmt.Sprint(st.Orig.UILocales), "[de fr]")
+				if st.Orig.MaxAge == nil || *st.Orig.MaxAge != 777 {
+					lost = append(lost, "max_age differs (object says 777)")
+				}
+				if len(lost) > 0 {
+					s.violation("reqobj", "parameter-ignored", "request_parameter_supported is true and the object was accepted (its state and nonce were used), but the authorization request handed to the storage lacks other parameters of the object: "+strings.Join(lost, ", "))
+				} else {
+					s.run.Observed("reqobj-all-parameters-honoured:" + s.rn)
+				}
+			}
 		}
 	default:
 		s.run.Count("reqobj:"+s.rn, adv+":ignored")
